@@ -60,6 +60,12 @@ var c07Kinds = map[string]c07Kind{
 	"type-error-assign":  {src: "{% assign v = \"x\" |%NL% times: 2 %}", cause: "typeerror"},
 	"type-error-if":      {src: "{% if \"a\" | plus: 1 %}x{% endif %}", cause: "typeerror"},
 	"offset-not-int":     {src: "{% for q in (1..2) offset: \"x\" %}x{% endfor %}"},
+	// a clause of a block is a tag of its own: it is the innermost failing tag
+	"filter-error-elsif": {src: "{% if false %}a%NL%{% elsif false %}b\n%AT%{% elsif 1 | fail %}c{% endif %}", names: "verif-sentinel", cause: "sentinel"},
+	"type-error-elsif":   {src: "{% if false %}a\n%NL%%AT%{% elsif \"a\" | plus: 1 %}c{% else %}d{% endif %}", cause: "typeerror"},
+	"type-error-when":    {src: "{% case 1 %}\n{% when 2 %}a%NL%\n%AT%{% when 3, (\"a\"..2) %}b{% endcase %}", cause: "typeerror"},
+	"syntax-elsif":       {src: "{% if false %}a\n%NL%%AT%{% elsif a b c %}c{% endif %}", parseTime: true},
+	"syntax-when":        {src: "{% case 1 %}\n%NL%%AT%{% when 1 2 %}c{% endcase %}", parseTime: true},
 	"strict-undefined":   {src: "{{ undefined_name }}", strict: true},
 	"break-outside":      {src: "{% break %}", needsLoop: "none"},
 	"continue-outside":   {src: "{% continue %}", needsLoop: "none"},
@@ -103,7 +109,7 @@ func (c *c07Case) build() (src string, failAt int, ok bool) {
 	sb.WriteString(gap())
 	if c.Decoy && !k.parseTime {
 		// a textually identical tag or object that is never executed must not attract the error
-		sb.WriteString("{% if false %}" + strings.ReplaceAll(k.src, "%NL%", "") + "{% endif %}")
+		sb.WriteString("{% if false %}" + strings.NewReplacer("%NL%", "", "%AT%", "").Replace(k.src) + "{% endif %}")
 		sb.WriteString(gap())
 	}
 	for _, w := range c.Wrappers {
@@ -133,6 +139,11 @@ func (c *c07Case) build() (src string, failAt int, ok bool) {
 		body = strings.ReplaceAll(body, "%NL%", "\n\n ")
 	} else {
 		body = strings.ReplaceAll(body, "%NL%", "")
+	}
+	// %AT% marks the tag inside the construct that fails (a clause of a block, say), when that is not its first
+	if at := strings.Index(body, "%AT%"); at >= 0 {
+		failAt += at
+		body = strings.Replace(body, "%AT%", "", 1)
 	}
 	sb.WriteString(body)
 	after := gap()
